@@ -49,6 +49,8 @@ type Interp struct {
 	nestedDone   map[string]int
 	everRel      map[string][]int // relation layouts populated at some point: layout -> targets
 	shrinkAt     int
+	saved        *savedDump      // entity dump kept for a later load
+	epoch        int             // incremented whenever entity serials are renumbered (Reset, load of a saved dump)
 	vacated      map[string]bool // layouts that lost a row holding non-zero data
 	uninit       bool            // the current op adds components without initialising them
 	regAt        []bool          // observers registered at the start of the operation
@@ -208,6 +210,10 @@ func (it *Interp) Apply(op *Op) {
 		return
 	case "probe":
 		it.opProbe(op)
+	case "dump":
+		it.opDump(op)
+	case "loadSaved":
+		it.opLoadSaved(op)
 	default:
 		panic("unknown op kind " + op.K)
 	}
@@ -930,6 +936,15 @@ func (it *Interp) opExchangeBatch(op *Op) {
 		}
 		it.evAt = it.M.Ents
 		it.classifyBatch(sel)
+		if len(op.Rels) > 0 && len(sel) > 0 {
+			it.count("batch-add-with-relation")
+			for _, o := range it.M.Obs {
+				if o.Registered && o.Ev == EvAddRels {
+					it.count("batch-add-with-relation-observed")
+					break
+				}
+			}
+		}
 	}
 	it.run(op, valid, func(b *Backend) {
 		if b.Pol.ExpandBatches && valid {
@@ -1237,6 +1252,7 @@ func (it *Interp) classifyTargets(sel []int) {
 func (it *Interp) opFilterNew(op *Op) {
 	fs := *op.FS
 	fs.Registered = false
+	fs.Epoch = it.epoch
 	it.M.Filters = append(it.M.Filters, &fs)
 	fi := len(it.M.Filters) - 1
 	it.run(op, true, func(b *Backend) { b.makeFilter(it.M, fi) })
@@ -1521,6 +1537,7 @@ func (it *Interp) opReset(op *Op) {
 		return
 	}
 	it.M.Ents = nil
+	it.epoch++
 	it.pre = nil
 	it.everRel = nil
 	it.vacated = nil
@@ -1789,6 +1806,7 @@ func comps16(m uint16) bool {
 func (it *Interp) freshWorld(b *Backend, withFilters bool) {
 	nb := NewBackend(b.Name, b.Cfg, b.Pol)
 	nb.Trace = b.Trace
+	nb.saved = b.saved
 	*b = *nb
 	for j := range it.M.Obs {
 		it.makeObs(b, j)
